@@ -2,7 +2,7 @@
     Constant / Extract Inductive directives of our own). *)
 From Coq Require Extraction ExtrOcamlBasic.
 From Crdt Require Import model.VClock model.Simple model.Orswot model.MVReg model.Map
-  model.Identifier model.List model.Merkle model.Serde extract.Glue spec.VClockSpec spec.System spec.OrswotSpec spec.Specs spec.MVRegSystem spec.MapSpec spec.MapOrswotSpec spec.MapMapOrswotSpec spec.MapMapOrswotNKSpec spec.MapOrswotKM spec.MapOrswotKMN.
+  model.Identifier model.List model.Merkle model.Serde extract.Glue spec.VClockSpec spec.System spec.OrswotSpec spec.Specs spec.MVRegSystem spec.MapSpec spec.MapOrswotSpec spec.MapMapOrswotSpec spec.MapMapOrswotNKSpec spec.MapOrswotKM spec.MapOrswotKMN spec.MapMVRegSpec.
 
 Extraction Language OCaml.
 Extraction "model.ml"
@@ -30,5 +30,5 @@ Extraction "model.ml"
   enc dec vclock_codec gcounter_codec pncounter_codec gset_codec reg_codec lww_codec orswot_codec mvreg_codec
   merkle_codec codec_mapmv codec_mapor codec_mapmm codec_mapmo codec_glist codec_list json_size
   deps_clock vec_insert_at vec_remove_at merkle_spec natset_of_list mk_oprec ospec c04_member mvspec gcspec pnspec gsspec maxspec minspec lwwspec glspec lspec
-  mkeyspec_ok mspec_keys mspec_entry_clock mspec_clock movalspec_ok mo_entries mo_state_entries m2valspec_ok mapor_nk_ok map2_nk_ok mapor_km_ok mapor_kmn_ok
+  mkeyspec_ok mspec_keys mspec_entry_clock mspec_clock movalspec_ok mo_entries mo_state_entries m2valspec_ok mapor_nk_ok map2_nk_ok mapor_km_ok mapor_kmn_ok mapmv_vals_ok
   mv_perm_eqb n_add n_mul z_add z_mul z_opp z_of_n mkqc n_to_nat n_of_nat.
